@@ -32,7 +32,7 @@ CHECKS = {
         "DESIGN.md section 6/C06"),
     "C18": (
         "PBT with a recording wrapper around generated dynamic filters: call-log invariants, accept-all == no filter, reject-P == forest without P, precedence filter == static priorities",
-        "Exploration: operator grammars (optionally with a nullable prefix rule Sign: '~' | EMPTY whose alternatives can be marked) with every/generated subsets of productions and terminals marked dynamic; filters accept-all, reject-all-reductions-of-one-production and precedence-encoding are wrapped in a recorder; for every expression with <= 3 operators (+ generated 4-operator ones), LR and GLR: first call is the all-None initialisation, later calls only for marked terminals/productions with matching sub-results; accept-all equals the parse without filter; reject-P gives exactly the trees not using P (SyntaxError iff none); the precedence filter gives the single precedence-climbing tree; LR sub-results of an operator reduction must hold the operator in the middle and be a run of the input; one-sided marking (only terminals / only productions, no static priorities) must construct and give the left- / right-nested tree with a shift- / reduction-rejecting filter; sub-check span-keyed-filters: arbitrary consistent filters (generated 64-bit mask over action kind, production/terminal and span in tokens) on grammars with nullable operators and prefix/infix terminals - GLR must return exactly the unfiltered trees that contain no rejected decision, an LR result must contain no decision that was rejected and never accepted.",
+        "Exploration: operator grammars (optionally with a nullable prefix rule Sign: '~' | EMPTY whose alternatives can be marked) with every/generated subsets of productions and terminals marked dynamic; filters accept-all, reject-all-reductions-of-one-production and precedence-encoding are wrapped in a recorder; for every expression with <= 3 operators (+ generated 4-operator ones), LR and GLR: first call is the all-None initialisation, later calls only for marked terminals/productions with matching sub-results; accept-all equals the parse without filter; reject-P gives exactly the trees not using P (SyntaxError iff none); the precedence filter gives the single precedence-climbing tree; LR sub-results of an operator reduction must hold the operator in the middle and be a run of the input; one-sided marking (only terminals / only productions, no static priorities) must construct and give the left- / right-nested tree with a shift- / reduction-rejecting filter; sub-check span-keyed-filters: arbitrary consistent filters (generated 64-bit mask over action kind, production/terminal and span in tokens) on grammars with nullable operators and prefix/infix terminals - GLR must return exactly the unfiltered trees that contain no rejected decision, an LR result must contain no decision that was rejected and never accepted and every non-empty reduction that was accepted; grammars optionally carry a ws-equivalent LAYOUT rule (the filter is initialised once per parse).",
         "Trusted: precedence-climbing reference; LR grammars are fully marked, one-sidedly marked on a single level, or fully statically prioritised so that Parser() constructs.",
         "DESIGN.md section 6/C18"),
     "C07": (
@@ -62,17 +62,17 @@ CHECKS = {
         "DESIGN.md section 6/C13"),
     "C14": (
         "metamorphic PBT (two generated layouts of the same token string must give the same parse / offending-token index) + differential PBT (ws parameter vs equivalent LAYOUT rules)",
-        "Exploration: every token string up to 3-4 tokens (sentences, non-sentences, junk) of every generated grammar is rendered with two independently generated layout patterns (whitespace; line and nested block comments under a LAYOUT rule) and parsed by LR and GLR: acceptance, LR result, the set of position-free GLR trees and the index of the offending token must agree; for ws grammars an equivalent LAYOUT rule (4 formulations) must give identical trees, node positions, layout_content and error positions; the table kind (LALR/SLR) and priorities on the layout terminals are generated parser options that must not matter.",
+        "Exploration: every token string up to 3-4 tokens (sentences, non-sentences, junk) of every generated grammar is rendered with two independently generated layout patterns (whitespace; line and nested block comments under a LAYOUT rule) and parsed by LR and GLR: acceptance, LR result, the set of position-free GLR trees and the index of the offending token must agree; for ws grammars an equivalent LAYOUT rule (4 formulations) must give identical trees, node positions, layout_content and error positions; the table kind (LALR/SLR), priorities on the layout terminals and the ws parameter itself (incl. character sets such as ' -_' or '^ \\t' with the equivalent LAYOUT rule) are generated; a logging accept-all dynamic filter must see the same calls with ws and with the LAYOUT rule.",
         "Trusted: the renderer never changes token boundaries (single-character terminals or forced separators). Messages/tokens_ahead are not compared between ws and LAYOUT parsers.",
         "DESIGN.md section 6/C14"),
     "C15": (
         "model-based PBT over generated operation histories (build Parser/GLRParser with varying tables/recovery/strictness, failing builds, parses that fail, recover, or raise - with a generated exception class - from user actions/recognizers) on one shared Grammar object; every operation is compared with the same operation on freshly built objects",
-        "Exploration: generated histories of 3-14 operations over one Grammar (random small grammars and grammars that keep two GLR heads in different states on one frontier, optionally with a comment LAYOUT rule, optionally with an unproductive rule so that every build fails; inputs with generated layout before the first token; a user recognizer that raises both where nothing else matches and where another head has already found its token) and a pool of parser instances; after every step the outcome (build result or exception type; parse result / forest trees and call_actions values / exception type, position and expected symbols / recovered error spans) must equal that of the same operation on a fresh Grammar and parser; the thorough tier additionally replays every operation on fresh objects in a fresh interpreter process (module globals).",
+        "Exploration: generated histories of 3-14 operations over one Grammar (random small grammars and grammars that keep two GLR heads in different states on one frontier, optionally with a comment LAYOUT rule, optionally with an unproductive rule so that every build fails; inputs with generated layout before the first token; a user recognizer that raises both where nothing else matches and where another head has already found its token) and a pool of parser instances; after every step the outcome (build result or exception type; parse result / forest trees and call_actions values / exception type, position and expected symbols / recovered error spans) must equal that of the same operation on a fresh Grammar and parser; the thorough tier additionally replays every operation on fresh objects in a fresh interpreter process (module globals). The start rule's action counts in context.extra (the oracle passes extra={} explicitly).",
         "Trusted: all parsers of a history get the same actions (precondition of the property). LR parses that do not terminate within 1 s are skipped and counted (termination is not this property's subject).",
         "DESIGN.md section 6/C15"),
     "C16": (
         "differential PBT across subprocesses started with different PYTHONHASHSEED values (and a repeated run with the same seed): tables, action order, .pgc bytes, conflict reports, LR results and forests must be identical",
-        "Exploration: generated batches of grammars (random small grammars, many terminals whose names differ in one character inside one lookahead set, ambiguous operator grammars, multi-file grammars whose imported files define terminals of the same name) are built in fresh interpreter processes under hash seeds 0,1,2,3 (12 seeds in the thorough tier): sha256 of the serialised table for LR/GLR x LALR/SLR, per-state action order, bytes of the written .pgc, conflict reports as (state, terminal, productions), LR results and the first 25 forest trees in index order (to_str), with consume_input=True and False (several accepted heads merged into one forest), must be equal in every process; a family of heavily ambiguous nullable grammars over one terminal (sub-check hash-seed-nullable-ambiguous) targets the order of the forest; for file-based grammars a second construction in the same directory (which loads the cached table) must report the same table and conflicts as the first.",
+        "Exploration: generated batches of grammars (random small grammars, many terminals whose names differ in one character inside one lookahead set, ambiguous operator grammars, multi-file grammars whose imported files define terminals of the same name) are built in fresh interpreter processes under hash seeds 0,1,2,3 (12 seeds in the thorough tier): sha256 of the serialised table for LR/GLR x LALR/SLR, per-state action order, bytes of the written .pgc, conflict reports as (state, terminal, productions), LR results and the first 25 forest trees in index order (to_str), with consume_input=True and False (several accepted heads merged into one forest), must be equal in every process; a family of heavily ambiguous nullable grammars over one terminal (sub-check hash-seed-nullable-ambiguous) targets the order of the forest; every grammar goes through a file, and a second construction in the same directory (which loads the cached table) must report the same table, conflicts and forests as the first.",
         "Trusted: a finite set of hash seeds. Conflict reports are compared by meaning (state, terminal, productions), not by rendered text (which lists lookahead sets in set order).",
         "DESIGN.md section 6/C16"),
     "C17": (
@@ -82,7 +82,7 @@ CHECKS = {
         "DESIGN.md section 6/C17"),
     "C09": (
         "differential PBT across the evaluation routes (on the fly, build_tree+call_actions, GLR+call_actions lazy/non-lazy/first tree) and against a reference evaluator applied to the derivation the LR parser built; generated action tables, named matches and repetition sugar",
-        "Exploration: generated grammars decorated with * + ? (with and without separators), named matches = and ?= at generated positions and an action table (none | one callable | per-alternative list; terminal actions); every accepted token string up to 4-5 tokens is evaluated by all routes with tagging actions that expose argument order, alternative index and bindings; all results must equal the reference evaluation of the built tree; without user actions the nested-list default (single-child unpacking, obj for rules with named matches, documented results of +,*,?) is checked the same way; results are compared with their container types (lists stay lists); for non-empty action sets the Grammar object is optionally used with a decoy action set first.",
+        "Exploration: generated grammars decorated with * + ? (with and without separators), named matches = and ?= at generated positions and an action table (none | one callable | per-alternative list; terminal actions); every accepted token string up to 4-5 tokens is evaluated by all routes with tagging actions that expose argument order, alternative index and bindings; all results must equal the reference evaluation of the built tree; without user actions the nested-list default (single-child unpacking, obj for rules with named matches, documented results of +,*,?) is checked the same way; results are compared with their container types (lists stay lists); for non-empty action sets the Grammar object is optionally used with a decoy action set first; terminal actions may return None.",
         "Trusted: reference evaluator in pv/props/c09.py (docs/actions.md, docs/grammar_language.md). Which derivation a prefer-shifts LR parser commits to is not this property's subject: the reference evaluates the tree the parser built.",
         "DESIGN.md section 6/C09"),
     "C10": (
@@ -102,7 +102,7 @@ CHECKS = {
         "DESIGN.md section 6/C19"),
     "C20": (
         "differential PBT: modular grammars written to a temporary directory (generated import graphs: chain, diamond, cycle, arbitrary; aliases; sub-directories; qualified references of any depth; overrides) vs the single-file grammar produced by an own flattener; recorded behaviour on a deterministic override + multi-path corpus",
-        "Exploration: generated sets of 2-4 grammar files with rules and declared terminals, every import graph shape, aliases, '../' paths and overrides of rules and terminals in the root or an intermediate file, optionally repetition/optional sugar on qualified references and a KEYWORD terminal in the root file (then also glued inputs); the modular grammar (Grammar.from_file) must be accepted iff every reference/override target exists, must have as many non-terminals/terminals as the flattened grammar (each file once), and LR (when both construct) and GLR must give the same results and error positions as the flattened grammar on every token string up to 3-4 tokens.",
+        "Exploration: generated sets of 2-4 grammar files with rules and declared terminals, every import graph shape, aliases, '../' paths and overrides of rules and terminals in the root or an intermediate file, optionally repetition/optional sugar on qualified references a KEYWORD terminal in the root file (then also glued inputs), named matches per file, inline string literals (incl. texts that are names of terminals of other files) and explicit EMPTY alternatives; the modular grammar (Grammar.from_file) must be accepted iff every reference/override target exists, must have as many non-terminals/terminals as the flattened grammar (each file once), and LR (when both construct) and GLR must give the same results and error positions as the flattened grammar on every token string up to 3-4 tokens.",
         "Trusted: flattener in pv/props/c20.py (docs/grammar_modularization.md; outermost override wins). Known finding D13 (override whose target file is reachable through >= 2 import paths: diamond or cycle) is excluded by that predicate; on a deterministic corpus of 84 such grammars the recorded behaviour is required exactly so that other changes in the class are still reported.",
         "DESIGN.md section 6/C20"),
 }
